@@ -323,6 +323,13 @@ pub fn check_written_units(t: &usvg::Tree, v: &mut Vec<Viol>) {
         if tag == "text" || tag == "tspan" || tag == "textPath" {
             // preserved text keeps the author's positioning lists; numbers there are still checked below
         }
+        // the writer leaves a units attribute out when it has the SVG default: for these two the default is
+        // objectBoundingBox, so a definition written WITHOUT the attribute still is in bounding-box units
+        for (el, at) in [("linearGradient", "gradientUnits"), ("radialGradient", "gradientUnits"), ("pattern", "patternUnits")] {
+            if tag == el && n.attribute(at).is_none() {
+                v.push(Viol { sig: format!("C04:written-units:{}-defaults-to-objectBoundingBox", el), what: format!("<{} id=\"{}\"> is written without {} (default objectBoundingBox)", tag, n.attribute("id").unwrap_or(""), at) });
+            }
+        }
         for a in n.attributes() {
             let (name, val) = (a.name(), a.value());
             if name.ends_with("Units") && val != "userSpaceOnUse" {
